@@ -263,12 +263,13 @@ Definition expected_labels (pool : list (N * list ritem)) (main : list ritem) : 
                         | None => []
                         end) (sub_rids main).
 
-Fixpoint cluster_members (name : string) (cs : list cluster) : option (list string) :=
-  match cs with
-  | [] => None
-  | Cluster (Some n) _ m _ :: r => if String.eqb n name then Some m else cluster_members name r
-  | _ :: r => cluster_members name r
-  end.
+(** is node [i] a member of a top-level subgraph named [name]?  (Two subgraph statements with the
+    same name denote the same subgraph: any of them counts.) *)
+Definition in_cluster (name : string) (i : string) (cs : list cluster) : bool :=
+  existsb (fun c => match c with
+                    | Cluster (Some n) _ m _ => String.eqb n name && mem_str i m
+                    | _ => false
+                    end) cs.
 
 Definition labels_node (g : graph) (want : option string * string) : bool :=
   let '(cl, l) := want in
@@ -276,10 +277,7 @@ Definition labels_node (g : graph) (want : option string * string) : bool :=
              option_eqb String.eqb (rendered (gn_attrs n)) (Some l)
              && match cl with
                 | None => true
-                | Some c => match cluster_members c (g_subs g) with
-                            | Some m => mem_str (gn_id n) m
-                            | None => false
-                            end
+                | Some c => in_cluster c (gn_id n) (g_subs g)
                 end) (g_nodes g).
 
 (** every expected item appears as a labelled node *)
